@@ -70,10 +70,12 @@ func (w *verifWorld) add(m Manager, i int, ready bool) {
 // poller retries; workers, poller body and the adding thread interleave.
 func VerifConcurrentAddFailRetry() {
 	verif.Option("max_preempt", verif.Bound("preemptions", 0, 1))
+	// (drawn before any worker thread exists: natively the replay values are
+	// read from one table that is not safe for concurrent use)
+	second := verif.Choice("second_add", 3)
 	w := &verifWorld{changed: make(chan struct{}, 64), symbolic: verif.Symbolic()}
 	m := w.newManager()
 	w.add(m, 0, true)
-	second := verif.Choice("second_add", 3)
 	switch second {
 	case 0:
 		w.add(m, 1, true)
